@@ -533,8 +533,8 @@ func playRandom(tw *traceWriter, run int, r *rand.Rand, cfg HCfg, ro randOpts) *
 	h := newHand(tw, run, cfg)
 	n := len(cfg.Bank)
 	st := styles[r.Intn(len(styles))]
-	if ro.passive {
-		st = style{0, 30, 0, 0}
+	if ro.passive || (ro.bbOnly && r.Intn(3) == 0) || r.Intn(12) == 0 {
+		st = style{0, 30, 0, 0} // checked / called down (nearly always) to the river
 	}
 	if ro.wrongOps && r.Intn(10) == 0 {
 		// wrong-phase calls before the hand has started
